@@ -5,7 +5,8 @@ Input line : {"kind":"single","n":n,"nz":[bool…],"events":[["D",i,tick,val|nul
 The formula is the sum of the streams, a missing value counting as zero where `nz[i]` (nones_are_zeros) and making
 the result missing otherwise.  The driver is the *eager scheduler* of the real system: nothing is evaluated before
 `attach` (the engine task is created by the first `new_receiver()`); from then on, after every event, `eval`
-(and `zip`) events are issued while they are enabled.  Everything else is the model's `step`.
+(and `zip`) events are issued while they are enabled.  The 3-phase round is the one the current source implements
+(`Evaluator.sourceResyncs`, extracted: resynchronising after fixes/C06-3phase-resync.patch, plain zip before).  Everything else is the model's `step`.
 Output line: {"out": [[tick,val|null]…]}   resp.  {"out": [[tick,v1,v2,v3]…]}
 -/
 import Frequenz.Model.Evaluator
@@ -62,10 +63,10 @@ def runSingle (j : Json) : Except String Json := do
 def drive3 (P1 P2 P3 : Phase) : Nat → St3 → St3
   | 0, σ => σ
   | k + 1, σ =>
-    if enabled P1.n P1.f σ.s1 then drive3 P1 P2 P3 k (step3 P1 P2 P3 σ (.ph 0 (.eval 0)))
-    else if enabled P2.n P2.f σ.s2 then drive3 P1 P2 P3 k (step3 P1 P2 P3 σ (.ph 1 (.eval 0)))
-    else if enabled P3.n P3.f σ.s3 then drive3 P1 P2 P3 k (step3 P1 P2 P3 σ (.ph 2 (.eval 0)))
-    else if (zipStep σ).isSome then drive3 P1 P2 P3 k (step3 P1 P2 P3 σ .zip)
+    if enabled P1.n P1.f σ.s1 then drive3 P1 P2 P3 k (step3 sourceResyncs P1 P2 P3 σ (.ph 0 (.eval 0)))
+    else if enabled P2.n P2.f σ.s2 then drive3 P1 P2 P3 k (step3 sourceResyncs P1 P2 P3 σ (.ph 1 (.eval 0)))
+    else if enabled P3.n P3.f σ.s3 then drive3 P1 P2 P3 k (step3 sourceResyncs P1 P2 P3 σ (.ph 2 (.eval 0)))
+    else if (zipStep sourceResyncs σ).isSome then drive3 P1 P2 P3 k (step3 sourceResyncs P1 P2 P3 σ .zip)
     else σ
 
 def parsePhase (j : Json) : Except String Phase := do
@@ -92,7 +93,7 @@ def run3phase (j : Json) : Except String Json := do
       let i ← a[2]!.getNat?
       let ts ← a[3]!.getInt?
       let v ← parseVal a[4]!
-      σ := step3 P1 P2 P3 σ (.ph p (.deliver i ⟨ts, v⟩))
+      σ := step3 sourceResyncs P1 P2 P3 σ (.ph p (.deliver i ⟨ts, v⟩))
       delivered := delivered + 1
     | "attach" => attached := true
     | _ => throw s!"unknown event {k}"
